@@ -32,8 +32,8 @@ ASSUMPTIONS = ["durability model is process death (what the kernel was handed su
 PROBES = ["kill_mid_write", "kill_at_open", "kill_at_close_or_replace", "interrupt_in_save", "history_nonempty",
           "many_events", "fanout_save"]
 TIERS = {
-    "quick": {"runs": 700, "wall": 45, "batch": 4, "shrink_s": 40},
-    "thorough": {"runs": 60000, "wall": 900, "batch": 8, "shrink_s": 120},
+    "quick": {"runs": 2500, "wall": 40, "batch": 4, "shrink_s": 40},
+    "thorough": {"runs": 500000, "wall": 1200, "batch": 8, "shrink_s": 120},
 }
 
 
